@@ -12,7 +12,7 @@ vf2 = table: order-sensitive case (result limits).  The complete enumeration of 
              at generation time and is handed to the model as its oracle; results are compared as LISTS, and the
              model first checks inside Coq that every recorded enumeration is a permutation of the verified
              enumerator's output (flag compared with the constant 1).
-Observable: [flag,] components of host, components of pattern, per configuration (pre-filter verdict, result).
+Observable: gwf flag, [table_ok flag,] components of host, components of pattern, per configuration (pre-filter verdict, result).
 """
 import itertools
 import math
@@ -51,7 +51,8 @@ TRUSTED_BASE = [
     "networkx Graph.copy / subgraph / connected_components (components are re-computed by the model, proved to be the "
     "connectivity classes (C06_components), and compared on every case)",
 ]
-ASSUMPTIONS = ["graphs are simple undirected networkx Graphs without self-loops with distinct node ids (premise gwf of the theorems)",
+ASSUMPTIONS = ["graphs are simple undirected networkx Graphs without self-loops with distinct node ids (premise gwf of the theorems; "
+               "evaluated by the model on every case: gwfb, first flag of the observable)",
                "hcount, when present, is a non-negative int",
                "attribute values are JSON scalars compared with Python ==",
                "strict_cc_count=True with more host than pattern components is the documented guard (comp: [], bt: exhaustive) - "
@@ -114,7 +115,9 @@ def impl(case):
         out.append([bool(q), ms if ordered else S(ms)])
     comps = lambda g: S([S(sorted(c)) for c in nx.connected_components(g)])
     obs = [comps(H), comps(P), out]
-    return ([True] + obs) if ordered else obs
+    # leading flags: the model evaluates the input premise gwf of the theorems (and, for ordered cases, the VF2
+    # contract monitor table_ok); both must be true
+    return [True] + (([True] + obs) if ordered else obs)
 
 
 class record_vf2:
@@ -376,7 +379,7 @@ def oracle(case):
 # ------------------------------------------------------------------ evidence helpers
 
 def nontrivial(case, obs):
-    o = obs[1:] if case.get("vf2") is not None else obs
+    o = obs[2:] if case.get("vf2") is not None else obs[1:]
     first = o[2][0][1]
     n = len(first["__set__"]) if isinstance(first, dict) else len(first)
     h, p = len(case["host"]["nodes"]), len(case["pattern"]["nodes"])
@@ -398,7 +401,7 @@ def distribution(cases, obss):
         d["ordered_cases"] += ordered
         if not isinstance(obs, list) or (obs and obs[0] == "EXC"):
             continue
-        o = obs[1:] if ordered else obs
+        o = obs[2:] if ordered else obs[1:]
         try:
             inc(d["host_components"], len(o[0]["__set__"]))
             inc(d["pattern_components"], len(o[1]["__set__"]))
@@ -622,7 +625,7 @@ def gen_cases(tier, rng):
     # ---- sampled hosts <= 4 x patterns <= 3
     big_h = cls[1] + cls[2] + cls[3] + cls[4]
     big_p = cls[1] + cls[2] + cls[3]
-    n_samp = 1500 if tier == "quick" else 300000   # measured: lowest mutant-detection rate per case of all populations
+    n_samp = 1500 if tier == "quick" else 60000   # measured: lowest mutant-detection rate per case of all populations
     for _ in range(n_samp):
         # bias towards 4-node hosts / 3-node patterns (the part not covered exhaustively)
         h = rng.choice(cls[4]) if rng.random() < 0.8 else rng.choice(big_h)
@@ -631,11 +634,11 @@ def gen_cases(tier, rng):
         cases.append(dict(kind="samp43", host=hh, pattern=_disjoint(hh, _present(p, rng), rng), na=NA_DEFAULT, ea=EA_DEFAULT,
                           cfgs=SET_CFGS, vf2=None))
     # ---- random molecule-like graphs, order-insensitive
-    for _ in range(1200 if tier == "quick" else 30000):
+    for _ in range(1200 if tier == "quick" else 10000):
         h, p, na, ea = _rand_pair(rng)
         cases.append(dict(kind="mol-set", host=h, pattern=p, na=na, ea=ea, cfgs=SET_CFGS, vf2=None))
     # ---- limits (order-sensitive, VF2 order recorded)
-    n_lim = 1200 if tier == "quick" else 20000
+    n_lim = 1200 if tier == "quick" else 6000
     k = 0
     while k < n_lim:
         if k % 2 == 0:
